@@ -232,8 +232,176 @@ def prefix_variants(rnd, per_variant=1):
     return out
 
 
+# ---- a catalogue of independent faults; every ordered pair of them is combined in one vector (a defect on an error path
+# often needs a second fault to be reached: the first decides which path runs, the second is what that path mishandles)
+FORMAT_FRAGMENTS = ["{", "}", "{}", "{0}", "{1}", "{x}", "{0!r}", "%s", "%d", "%(a)s", "%", "$x", "${x}", "\\1", "\\g<0>", "\\", "[", "(", ")", "*", "?", "+", "^", "$", "|", "#", "'", '"', "\n", "\r", "\x00", "\ud800" if False else "\ufffd"]
+
+
+def _fields(s):
+    pre = ""
+    if s.startswith("CVSS:") and "/" in s:
+        pre, s = s.split("/", 1)
+        pre += "/"
+    return pre, s.split("/")
+
+
+def _f_empty_mid(rnd, s, ver):
+    pre, f = _fields(s)
+    p = rnd.randrange(1, len(f)) if len(f) > 1 else 0
+    return pre + "/".join(f[:p] + [""] + f[p:])
+
+
+def _f_empty_front(rnd, s, ver):
+    pre, f = _fields(s)
+    return pre + "/" + "/".join(f)
+
+
+def _f_trailing(rnd, s, ver):
+    return s + "/"
+
+
+def _f_fragment_in_value(rnd, s, ver):
+    pre, f = _fields(s)
+    p = rnd.randrange(len(f))
+    return pre + "/".join(f[:p] + [f[p] + rnd.choice(FORMAT_FRAGMENTS)] + f[p + 1:])
+
+
+def _f_fragment_in_metric(rnd, s, ver):
+    pre, f = _fields(s)
+    p = rnd.randrange(len(f))
+    return pre + "/".join(f[:p] + [rnd.choice(FORMAT_FRAGMENTS) + f[p]] + f[p + 1:])
+
+
+def _f_fragment_field(rnd, s, ver):
+    pre, f = _fields(s)
+    p = rnd.randrange(len(f) + 1)
+    return pre + "/".join(f[:p] + [rnd.choice(FORMAT_FRAGMENTS)] + f[p:])
+
+
+def _f_fragment_in_prefix(rnd, s, ver):
+    fr = rnd.choice(FORMAT_FRAGMENTS)
+    return (s[:5] + fr + s[5:]) if s.startswith("CVSS:") else fr + s
+
+
+def _f_duplicate(rnd, s, ver):
+    pre, f = _fields(s)
+    p = rnd.randrange(len(f))
+    return pre + "/".join(f + [f[p]])
+
+
+def _f_unknown_metric(rnd, s, ver):
+    pre, f = _fields(s)
+    p = rnd.randrange(len(f) + 1)
+    return pre + "/".join(f[:p] + [rnd.choice(["ZZ:N", "Q:X", "av:N", "AV :N", "MAT:N" if ver != "4" else "Au:N", "E2:X"])] + f[p:])
+
+
+def _f_unknown_value(rnd, s, ver):
+    pre, f = _fields(s)
+    p = rnd.randrange(len(f))
+    return pre + "/".join(f[:p] + [f[p].split(":")[0] + ":" + rnd.choice(["Q", "", "NN", "n", "0", "None"])] + f[p + 1:])
+
+
+def _f_missing_mandatory(rnd, s, ver):
+    pre, f = _fields(s)
+    mand = [k for k, x in enumerate(f) if x.split(":")[0] in MAND[ver]]
+    if mand:
+        del f[rnd.choice(mand)]
+    return pre + "/".join(f)
+
+
+def _f_no_colon(rnd, s, ver):
+    pre, f = _fields(s)
+    p = rnd.randrange(len(f))
+    return pre + "/".join(f[:p] + [f[p].replace(":", rnd.choice(["", "::", "=", ":x:"]))] + f[p + 1:])
+
+
+def _f_case(rnd, s, ver):
+    pre, f = _fields(s)
+    p = rnd.randrange(len(f))
+    return pre + "/".join(f[:p] + [rnd.choice([f[p].lower(), f[p].upper(), f[p].swapcase(), f[p].title()])] + f[p + 1:])
+
+
+def _f_space(rnd, s, ver):
+    pre, f = _fields(s)
+    p = rnd.randrange(len(f))
+    return pre + "/".join(f[:p] + [rnd.choice([" " + f[p], f[p] + " ", f[p] + "\t", f[p] + "\n"])] + f[p + 1:])
+
+
+def _f_bad_prefix(rnd, s, ver):
+    body = s.split("/", 1)[1] if s.startswith("CVSS:") and "/" in s else s
+    return rnd.choice(["CVSS:3.2/", "cvss:3.1/", "CVSS:4.1/", "CVSS:2.0/", "CVSS:/", "CVSS:3.1/CVSS:3.1/", "CVSS:4.0/CVSS:4.0/"] + ([""] if ver != "2" else [])) + body
+
+
+def _f_nonascii(rnd, s, ver):
+    p = rnd.randrange(len(s) + 1)
+    return s[:p] + rnd.choice(["\u00e9", "\u0130", "\u212a", "\u017f", "\U0001F600", "\u0661", "\u200b", "\u2011"]) + s[p:]
+
+
+def _f_long(rnd, s, ver):
+    pre, f = _fields(s)
+    p = rnd.randrange(len(f))
+    return pre + "/".join(f[:p] + [f[p] * rnd.choice([50, 400])] + f[p + 1:])
+
+
+FAULTS = [_f_empty_mid, _f_empty_front, _f_trailing, _f_fragment_in_value, _f_fragment_in_metric, _f_fragment_field, _f_fragment_in_prefix, _f_duplicate,
+          _f_unknown_metric, _f_unknown_value, _f_missing_mandatory, _f_no_colon, _f_case, _f_space, _f_bad_prefix, _f_nonascii, _f_long]
+
+
+def fault_pairs(rnd, per_pair=1):
+    """every ordered pair of fault kinds (and every kind alone) applied to a valid vector of every version"""
+    out = []
+    for ver in "234":
+        for a in FAULTS:
+            for b in [None] + FAULTS:
+                for _ in range(per_pair):
+                    s = random_vector(rnd, ver, p_opt=rnd.choice([0.0, 0.2, 0.6]))[3]
+                    t = a(rnd, s, ver)
+                    if b is not None:
+                        try:
+                            t = b(rnd, t, ver)
+                        except (ValueError, IndexError):
+                            pass
+                    out.append(t)
+    return out
+
+
+def fragment_sweep(rnd):
+    """every format / pattern fragment x every other fault kind, the fragment placed once before and once after the other fault"""
+    out = []
+    others = [f for f in FAULTS if not f.__name__.startswith("_f_fragment")]
+    for ver in "234":
+        for a in others:
+            for fr in FORMAT_FRAGMENTS:
+                s = random_vector(rnd, ver, p_opt=rnd.choice([0.0, 0.2]))[3]
+                t = a(rnd, s, ver)
+                out.append(t + fr)
+                pre, f = _fields(t)
+                out.append(pre + fr + "/".join(f))
+    return out
+
+
+def value_case_variants(rnd):
+    """every metric value of more than one letter (and every metric name) in every letter-case variant, in otherwise valid vectors"""
+    out = []
+    for ver in "234":
+        for m in ORDER[ver]:
+            for v in VALS[ver][m]:
+                variants = set([v.lower(), v.upper(), v.capitalize(), v.swapcase(), v.title()]) - set([v])
+                for w in sorted(variants):
+                    _, minor, g, _s = random_vector(rnd, ver, p_opt=rnd.choice([0.0, 0.2]))
+                    g = dict(g)
+                    g[m] = v
+                    out.append(spell(ver, minor, g, some_order(rnd, ver, g)).replace("%s:%s" % (m, v), "%s:%s" % (m, w), 1))
+            for w in sorted(set([m.lower(), m.upper(), m.capitalize(), m.swapcase()]) - set([m])):
+                _, minor, g, _s = random_vector(rnd, ver, p_opt=0.1)
+                g = dict(g)
+                g.setdefault(m, VALS[ver][m][0])
+                out.append(spell(ver, minor, g).replace("%s:%s" % (m, g[m]), "%s:%s" % (w, g[m]), 1))
+    return out
+
+
 def near_misses(rnd, n, depth2=0.2):
-    out = prefix_variants(rnd)
+    out = prefix_variants(rnd) + value_case_variants(rnd) + fault_pairs(rnd, 1 if n < 50000 else 6) + fragment_sweep(rnd)
     for _ in range(n):
         ver = rnd.choice("234")
         _, minor, g, s = random_vector(rnd, ver)
